@@ -39,6 +39,9 @@ def obligations(tier):
     obs.append(Ob("L1.hg_commit_logfile", "c12.py", "hg_commit_logfile", {"len": ln}, timeout=t))
     obs.append(Ob("twin.argv_reached", "c12.py", "twin_argv_never_four", {"len": ln}, expect="refute", timeout=60))
     obs.append(Ob("L2.shorthand", "c12.py", "shorthand", {}, timeout=t))
+    obs.append(Ob("L5.configured_template_verbatim", "c12.py", "configured_template_verbatim", {}, timeout=t,
+                  bounds="5 templates with %, %%, %(name)s, $, backticks, quotes, leading dashes, # and ; x commit/tag message x "
+                         "setup.cfg (3 quoting styles) / bumpver.toml"))
     # L3: the update command hands the rendered templates on: configured templates verbatim (placeholders only), OLD/NEW shorthand
     # only for the command line options (skeleton shared with C10)
     obs += [o for o in _c10.obligations(tier) if o.name.startswith("L3.update_skeleton[!dry") and o.name.endswith(",gate]")]
